@@ -27,6 +27,7 @@ type Printer struct {
 	// AllowDistinctOrdinal: print `SELECT DISTINCT … ORDER BY <ordinal>` in one block (the engine
 	// mis-orders it; left off by the generators).
 	AllowDistinctOrdinal bool
+	AllowHavingOverJoin bool
 	// Feats records spelling features of the last statement that known-finding regions depend on.
 	Feats map[string]bool
 
@@ -164,7 +165,9 @@ func (p *Printer) build(q *Query, outer [][]string) *block {
 		return b
 	case "filter":
 		b := p.build(q.L, outer)
-		if p.noFuse(q) || b.raw != "" || !(b.stage == stFrom || b.stage == stGroup) {
+		// (HAVING over a grouped JOIN is not merged: the engine fails to resolve qualified names of
+		// the joined tables inside HAVING aggregates — "table not found", observed defect.)
+		if p.noFuse(q) || b.raw != "" || !(b.stage == stFrom || b.stage == stGroup) || (b.stage == stGroup && b.isJoin && !p.AllowHavingOverJoin) {
 			b = p.derive(b)
 		}
 		pred := p.expr(q.P, scope(b))
